@@ -14,7 +14,9 @@ A1 == Ident("da", FALSE, S(<<113>>))
 Spellings ==      \* <<style, words, colon-argument>>
   {<<"kebab", <<"foo">>, "">>, <<"camel", <<"foo">>, "">>, <<"kebab", <<"foo", "bar">>, "">>,
    <<"camel", <<"foo", "bar">>, "">>, <<"kebab", <<"foo">>, "x">>, <<"kebab", <<"show">>, "">>,
-   <<"camel", <<"show">>, "">>}
+   <<"camel", <<"show">>, "">>,
+   \* names that themselves begin with the letter v (only the `v-` / `v` prefix is removed)
+   <<"kebab", <<"validate">>, "">>, <<"kebab", <<"view", "box">>, "x">>, <<"camel", <<"visible">>, "">>}
 ModSuffixes == {<<>>, <<"a">>, <<"a", "b">>}
 
 ValueShapes(hasColonArg, hasSuffixMods) ==
